@@ -29,6 +29,7 @@ def one_history(acc, seed, tag):
     three = r.random() < 0.6
     W = world.World(seed=r.randrange(1 << 30), strategy=r.choice(["uniform", "app-first", "app-last", "newest"]), batch=40)
     W.server.low_keys = 12
+    W.server.notify_identity_change = r.random() < 0.5
     A, X, B = "4911" + gen.s_from(r, gen.DIGITS, 7), "4922" + gen.s_from(r, gen.DIGITS, 7), "4933" + gen.s_from(r, gen.DIGITS, 7)
     phones = [A, X] + ([B] if three else [])
     # the option is only set when the application switches it on: the default must be "off"
@@ -45,7 +46,8 @@ def one_history(acc, seed, tag):
     if r.random() < 0.25:
         # the first thing A ever gets from X cannot be decrypted (identity presented, no session), then X reinstalls
         events[0:0] = ["x>a-undecryptable", "reinstall-x", "a>x"]
-    w = {"tag": tag, "autotrust": autotrust, "accounts": len(phones), "events": events}
+    w = {"tag": tag, "autotrust": autotrust, "accounts": len(phones), "events": events, "identity_notifications": W.server.notify_identity_change}
+    acc.count("identity_notifications:" + ("on" if W.server.notify_identity_change else "off"))
     acc.count("autotrust:" + ("on" if autotrust else "off"))
 
     def run_actions(actions):
